@@ -13,7 +13,7 @@ CLAIMS = {
           "(R5) init_container writes the configuration/folders only after both refusal tests on every path (typestate over clear=True/False), rmtree only under clear, every cache attribute of __init__ reset and sessions closed; "
           "(R6) repack stages every row of the pack with id/hashkey/size taken from the columns of the same row, removes a pack file only after an existence query over its rows said none or after the re-pointing commit (also when entered after an interrupted repack); loosen_object goes through the public reader and the loose writer with a key comparison. "
           "Does NOT decide equality of the views with the model after every history (values, histories): necessary conditions only."),
-    note="Closed-world tables: a new destructive site or a new public view fails the check until it is reviewed and tabled. Trusted: SQLite/POSIX semantics.",
+    note="Closed-world tables: a new destructive site or a new public view fails the check until it is reviewed and tabled. Trusted: SQLite/POSIX semantics. Also evaluates, as hosted rule modules reported under C02+..., the checks of C01, C03, C07, C09, C10, C11, C14 and C16: every one of them is a necessary condition of the views equalling the model.",
     technique="call-graph reachability + set-provenance/def-use checks on the read funnel + kind-resolved closed-world effect table + typestate on init_container", ref="5/C02"),
  'C03': dict(
     text=("Decides the structural clauses of index/pack agreement on every path, iteration and flag specialisation of the three pack writers (pack_all_loose, direct-to-pack, repack): "
@@ -21,7 +21,7 @@ CLAIMS = {
           "(R2) tell() of the append handle is the true end of file (no tell/write between a seek and its truncate); (R3) uniqueness: hashkey column unique, every INSERT is OR IGNORE or dominated by the already-indexed filter, repack updates by primary key; "
           "(R4) the manual-recovery script in docs/pages/design.md agrees with the code (table/column names, index file name, pack folder, boolean encoding, raw zlib streams); (R5) repack: committed rows always designate an existing, flushed pack file (or the temporary pack). "
           "Does NOT decide range arithmetic as values (non-overlap, within-file for all histories); recoverability only as schema/script agreement."),
-    note="Trusted: O_APPEND writes at end of file; SQLite unique index; the documented script is parsed as text blocks of the design page.",
+    note="Trusted: O_APPEND writes at end of file; SQLite unique index; the documented script is parsed as text blocks of the design page. Also hosts the rule modules of C09 (no key indexed twice) and C13 (ranges never move or shrink).",
     technique="per-iteration typestate on inlined CFGs (offset/length pairing, append-handle) + schema/SQL/doc term agreement", ref="5/C03"),
  'C05': dict(
     text=("Decides, from the source, the ordering clauses of crash safety on every path, loop iteration and flag specialisation: "
@@ -43,7 +43,7 @@ CLAIMS = {
           "packer makes pack bytes visible (flush/close) before committing the row and unlinks a loose file only after the commit; clean_storage decides on a snapshot begun after a session refresh; "
           "reader catches FileNotFoundError of the loose probe, routes the key to the retry set, refreshes its session and re-queries (IN and sorted-scan strategies) before answering MISSING, in both stream modes, and takes the loose size from the open descriptor; "
           "LazyLooseStream retries through loosen_object; transaction premises (rows become visible to other connections only at COMMIT, WAL snapshots). Each premise is a necessary condition; the interleaving semantics themselves are NOT decided."),
-    note="Trusted: POSIX unlink-while-open, rename atomicity, SQLite WAL snapshot isolation (a new session sees all earlier commits); one packer.",
+    note="Trusted: POSIX unlink-while-open, rename atomicity, SQLite WAL snapshot isolation (a new session sees all earlier commits); one packer. Also hosts the rule module of C08 (freshness for long-open reader handles, which are in C04's quantifier).",
     technique="static typestate analysis on ICFGs with exception edges + handler-routing/provenance checks on the read funnel", ref="5/C04"),
  'C17': dict(
     text=("Decides, on control-flow graphs with exception edges (any call may raise): (R2) no except clause of the package that catches a generic I/O or database error around a mutating effect continues normally (table of allowed narrow idioms); "
@@ -84,13 +84,13 @@ CLAIMS = {
           "(R3) same hash algorithm: only Location.LEFTONLY keys of the sorted merge are transferred; different algorithms: constant propagation shows no_holes=True and no_holes_read_twice=True at every add call; "
           "(R4) the old/new key lists of the returned mapping grow in lockstep (paired append / extension from one zip(*cache.items()) whose contents are what is added), the cache is reset with every in-loop flush and flushed after the loop; (R5) direction: objects are read from the source container parameter, existence listing / writes / commit happen on self, and the fast path is chosen by comparing the two containers' hash types. "
           "Does NOT decide byte identity of transferred objects."),
-    note="Assumes add_objects_to_pack returns keys in input order (C01/C09 rules) and dict insertion order.",
+    note="Assumes add_objects_to_pack returns keys in input order (C01/C09 rules) and dict insertion order. Also hosts the rule module of C01 (the direct-to-pack write path must round-trip).",
     technique="linear typestate + constant propagation on ICFGs + def-use matching", ref="5/C14"),
  'C15': dict(
     text=("Decides structural clauses of backup_container: (R1) copy steps classified by the kind of their source path run in the order loose -> index dump -> copy of the dump -> packs -> rest on every path; "
           "(R2) the copied index is the temporary dump written by sqlite3.Connection.backup, never the live file; (R3) the constant exclude patterns of the final copy, evaluated with rsync name matching, cover loose/, packs/, the index and the -wal/-shm side files implied by journal_mode=wal; "
           "(R4) rsync exit status raises, no handler in the backup path swallows errors, the live-backup folder is renamed only after the backup function returned; (R2b) the dump is transferred under the index' own file name and no live-index metadata is copied onto it; (R5) closed table of rsync options: every constant option of call_rsync and every per-call extra argument is reviewed (only --exclude per call). Does NOT decide the schedules (placements of concurrent steps)."),
-    note="Relies on C13/C05 (append-only packs, commit after write) as the property's own anchor says; only simple exclude patterns are evaluated.",
+    note="Relies on C13/C05 (append-only packs, commit after write) as the property's own anchor says; only simple exclude patterns are evaluated. Also hosts the rule module of C13 (append-only, in-order packs: the property's own stated premise).",
     technique="ordering typestate over kind-classified copy steps + constant pattern evaluation + error-propagation checks", ref="5/C15"),
  'C18': dict(
     text=("Decides resource-shape clauses: (R1) every descriptor-producing call of the package (open, os.open, sqlite3.connect, tempfile) is with-managed, closed on all normal paths of its function, handed over, or stored in an attribute whose owner class closes it; Container.close closes and disposes both sessions and __exit__/__del__ call it; "
@@ -104,7 +104,7 @@ CLAIMS = {
           "(R3) configuration parametricity: every hash/compression argument is traced through parameters and constructor bindings at all call sites to the container configuration, literals are flagged (tabled exemptions: init defaults, AUTO sampling compressor); "
           "(R4) writer/reader agreement: loose path terms of writer, reader and listing; decompresser wraps the packed reader iff the row's compressed flag at every construction site; staged row keys = table columns; positional column order of every namedtuple construction and left_key; metadata field mapping; (R5) decompresser rewind resets all state. "
           "Does NOT decide value-level hashing/zlib/slicing arithmetic."),
-    note="hashlib/zlib/slicing trusted value-correct; read(n) returns b'' only at EOF.",
+    note="hashlib/zlib/slicing trusted value-correct; read(n) returns b'' only at EOF. Also evaluates, as hosted rule modules reported under C01+..., the checks of C03 (index/pack agreement), C07 (stream classes) and C10 (compression), which are necessary conditions of the round trip.",
     technique="path enumeration over loop bodies + interprocedural provenance + sibling term comparison (AST/def-use)", ref="5/C01"),
  'C10': dict(
     text=("Decides: (R1) should_compress has a branch for every CompressMode member with the constant answer the mode demands (NO->False, YES->True, KEEP->source flag), raises otherwise, and bool maps to YES/NO; "
